@@ -250,6 +250,8 @@ def bi_isinstance(e, st, args, kw, node):
             return z3.BoolVal('list' in cs or 'Sized' in cs)
         if isinstance(x, VStr):
             return z3.BoolVal('str' in cs)
+        if isinstance(x, VFunc) and all(e.repo.cls(n) is not None for n in cs):
+            return z3.BoolVal(False)             # a function / property / class object is not an instance of a repository class
         raise Unsupported(f"isinstance on {type(x).__name__}")
 
     return st, VBool(test(x))
@@ -298,6 +300,20 @@ def bi_iter(e, st, args, kw, node):
     iid = len(st.iters) + 1 + max(list(st.iters) + [0])
     st.iters[iid] = (l, z3.IntVal(0))
     return st, VIter(iid)
+
+
+def bi_itertools_tee(e, st, args, kw, node):
+    """itertools.tee(iterable[, n=2]): n independent iterators over the same sequence"""
+    if len(args) > 1 or kw:
+        raise Unsupported("itertools.tee with an explicit count")
+    e.assumptions.add('itertools.tee(xs): two independent iterators over the elements of xs, in order')
+    st, l = _materialize(e, st, args[0])
+    out = []
+    for _ in range(2):
+        iid = len(st.iters) + 1 + max(list(st.iters) + [0])
+        st.iters[iid] = (l, z3.IntVal(0))
+        out.append(VIter(iid))
+    return st, VTuple(tuple(out))
 
 
 def bi_next(e, st, args, kw, node):
@@ -616,7 +632,7 @@ def call_listmeth(e, st, ref: VListRef, name, args, node):
     elif name == 'pop':
         if args:
             raise Unsupported("list.pop(i)")
-        e.check(st, l.n >= 1, f"safety[{site}]::pop_from_nonempty", 'safety')
+        e.safety(st, l.n >= 1, f"safety[{site}]::pop_from_nonempty")
         x = l.at(z3.simplify(l.n - 1))
         st.lists[ref.lid] = VList(l.elem, l.arrs, l.off, z3.simplify(l.n - 1))
         yield st, x
@@ -691,6 +707,31 @@ def bi_itertools_chain_from_iterable(e, st, args, kw, node):
         inner = sc.lst(inner)
         r = e.fresh_list(inner.elem, 'chained')
         st.assume(*e.wf(r, st))
+        return st, st.new_list(r)
+    if isinstance(src, (VListRef, VList)) and isinstance(st.lst(src).elem, LIST):
+        # a list of lists: order-preserving flattening described by ghost index maps ci(j), pi(j) (outer / inner index of element j)
+        # and their inverse pos(a, b), exactly as for a nested comprehension
+        L = st.lst(src)
+        ek = L.elem.elem
+        m = z3.Int(fresh_name('flat.len'))
+        r = e.fresh_list(ek, 'flat', n=m)
+        ci = z3.Function(fresh_name('ci'), z3.IntSort(), z3.IntSort())
+        pi = z3.Function(fresh_name('pi'), z3.IntSort(), z3.IntSort())
+        pos = z3.Function(fresh_name('pos'), z3.IntSort(), z3.IntSort(), z3.IntSort())
+        j, j2, a, b = (z3.Int(fresh_name(x)) for x in ('fj', 'fj2', 'fa', 'fb'))
+        inner = lambda x: L.at(x)
+        inn = inner(ci(j))
+        eqs = [z3.Select(ra, j) == c for ra, c in zip(r.arrs, inn.at(pi(j)).cols())]
+        st.assume(m >= 0)
+        st.assume(z3.ForAll([j], z3.Implies(z3.And(0 <= j, j < m), z3.And(0 <= ci(j), ci(j) < L.n, 0 <= pi(j), pi(j) < inn.n, pos(ci(j), pi(j)) == j, *eqs)),
+                            patterns=[z3.Select(r.arrs[0], j), ci(j)] if r.arrs else [ci(j)]))
+        st.assume(z3.ForAll([a, b], z3.Implies(z3.And(0 <= a, a < L.n, 0 <= b, b < inner(a).n),
+                                               z3.And(0 <= pos(a, b), pos(a, b) < m, ci(pos(a, b)) == a, pi(pos(a, b)) == b)), patterns=[pos(a, b)]))
+        st.assume(z3.ForAll([j, j2], z3.Implies(z3.And(0 <= j, j < j2, j2 < m), z3.Or(ci(j) < ci(j2), z3.And(ci(j) == ci(j2), pi(j) < pi(j2)))),
+                            patterns=[MP(ci(j), ci(j2))]))
+        st.assume(*e.wf(r, st))
+        st.notes['last_flatten'] = dict(ci=ci, pi=pi, pos=pos, m=m, n0=L.n, n1=lambda x: inner(x).n, r=r, src=L)
+        e.assumptions.add('itertools.chain.from_iterable(list of lists): order-preserving concatenation')
         return st, st.new_list(r)
     raise Unsupported("chain.from_iterable over this argument")
 
